@@ -1098,16 +1098,34 @@ HISTORY_KEYS_A = ['bases', 'theses', 'diagnoses', 'parentheses', 'synopses', 'pr
 HISTORY_KEYS_B = ['reanalyses', 'psychoanalyses', 'meta_analyses', 'items', 'statuses', 'when']
 
 
+# strings whose inferred type depends on the flags (number- / bool- / date-looking), shared between the two documents of a pair
+HISTORY_SHARED = ['5', '1.5', 'yes', 'true', 'False', '0', '-3', '1e3', '007', '12:30', '2021-01-31', '2021-01-31T12:30:00', 'x', 'N/A']
+
+
 def history_docs(rng, n):
     pairs = []
-    for _ in range(n):
-        a = {k: [{'v': rng.choice([1, 'x', '2021-01-31', None])}] for k in rng.sample(HISTORY_KEYS_A, rng.randint(1, 4))}
+    for j in range(n):
+        vals = [1, 'x', '2021-01-31', None] + rng.sample(HISTORY_SHARED, 4)
+        a = {k: [{'v': rng.choice(vals)}] for k in rng.sample(HISTORY_KEYS_A, rng.randint(1, 4))}
         if rng.random() < 0.5:
             a['stamp'] = rng.choice(DATETIME_STRS + TIME_STRS)
         b = {k: [{'w': rng.choice([2, 'y', None])}, {'w': 3}] for k in rng.sample(HISTORY_KEYS_B, rng.randint(1, 3))}
         if rng.random() < 0.3:
             b, _prof = gen_doc(rng)
         fa, fb = rng.choice(FLAGS), rng.choice(FLAGS)
+        if j % 2 == 1:
+            # the second document shares values (and sometimes keys) with the first and is generated under other flags: whatever
+            # the first generation left behind about a value or a key must not show in the second
+            used = [e['v'] for lst in a.values() if isinstance(lst, list) for e in lst if isinstance(e, dict)]
+            used = [v for v in used if isinstance(v, str)] or rng.sample(HISTORY_SHARED, 2)
+            keys = rng.sample(HISTORY_KEYS_B, rng.randint(1, 3))
+            if rng.random() < 0.4:
+                keys[0] = rng.choice(sorted(k for k in a if k != 'stamp'))
+            b = {k: [{'w': rng.choice(used)}, {'w': rng.choice(used + [3, None])}] for k in keys}
+            b['plain'] = rng.choice(used)
+            fb = (rng.choice([True, False]), not fa[1])         # the other force-strings setting
+            if rng.random() < 0.5:
+                a['plain'] = b['plain']
         pairs.append((a, fa, b, fb))
     return pairs
 
@@ -1330,7 +1348,7 @@ def run(ctx: C.Ctx):
         ctx.agree('keywords', 'keyword.kwlist', sorted(keyword.kwlist), sorted(kw or []))
     if ctx.only is None:
         ctx.current = None
-        run_history(ctx, history_docs(rng, ctx.quick(10, 120)))
+        run_history(ctx, history_docs(rng, ctx.quick(16, 160)))
         check_cli(ctx, CLI_INPUTS if ctx.tier != 'quick' else CLI_INPUTS[:1] + CLI_INPUTS[5:7] + CLI_INPUTS[10:12])
 
 
